@@ -900,6 +900,12 @@ def _session_loop(self, qualname, ordinal, spec):
     fn = self.find(qualname)
     try:
         spec.name_map = localnames.loop_mapping(qualname, fn.node, ordinal)
+        if spec.name_map:
+            # reported in the evidence: which contract names were re-aligned with which current locals
+            reg = getattr(self.I.repo, "renamed_locals", None)
+            if reg is None:
+                reg = self.I.repo.renamed_locals = {}
+            reg[f"{qualname}#loop{ordinal}"] = dict(spec.name_map)
     except Exception:
         spec.name_map = {}
     self.I.loop_specs[(qualname, ordinal)] = spec
